@@ -347,6 +347,17 @@ func resultPhiModel(fn *ssa.Function, acc []acceptRet, kind AcceptKind, byStmt m
 	}
 	for _, a := range acc {
 		phi, ok := a.val.(*ssa.Phi)
+		if !ok && a.val != nil && kind == AcceptNilErr {
+			// `if err == nil { ... }; return err`: the edge on which err is known non-nil does not lie
+			// on an accepting path of this return
+			blk := a.ret.Block()
+			for _, pred := range blk.Preds {
+				if edgeKnowsNonNil(a.val, pred, blk) {
+					dead[edge{pred.Index, blk.Index}] = true
+				}
+			}
+			continue
+		}
 		if !ok || phi.Block() != a.ret.Block() {
 			continue
 		}
@@ -783,4 +794,27 @@ func fillDelegations(acc []acceptRet, assume []string) {
 		sort.Strings(out)
 		acc[i].deleg = out
 	}
+}
+
+// edgeKnowsNonNil: on the edge pred -> succ the value v (an error) is known to be non-nil: pred
+// ends in a test of v whose non-nil edge this is, or pred is dominated by such an edge.
+func edgeKnowsNonNil(v ssa.Value, pred, succ *ssa.BasicBlock) bool {
+	if len(pred.Instrs) > 0 {
+		if iff, ok := pred.Instrs[len(pred.Instrs)-1].(*ssa.If); ok && len(pred.Succs) == 2 && pred.Succs[0] != pred.Succs[1] {
+			a := atomOf(iff.Cond)
+			if a.Kind == "nilcmp" && a.X == v {
+				nilSide := 0
+				if a.Neg {
+					nilSide = 1
+				}
+				if pred.Succs[1-nilSide] == succ {
+					return true
+				}
+				if pred.Succs[nilSide] == succ {
+					return false
+				}
+			}
+		}
+	}
+	return knownNonNilAt(v, pred)
 }
